@@ -126,6 +126,7 @@ PLANS["C13"] = {
 PLANS["C14"] = {
     "props": ["C14"], "ops": ["decsc", "decrc"],
     "mc": [mcseq("C14seq", {"quick": 3, "thorough": 4}, ports({"api": 1, "chars": 3}, {"api": 1, "chars": 3})),
+           mcseq("C14colm", {"quick": 3, "thorough": 3}, ports({"api": 1}, {"api": 1, "chars": 2})),
            mc("C14", geoms("GSmall", "GSmall"), ports({"api": 1, "chars": 2}, ALLP))],
     "gen": [gen("star", 12, 300, focus="C14", steps=40, every=6, per=24), walk("C14", 160, 4000), walk("C14", 80, 2000, port="chars")],
     "rule": "MC: DECSC/DECRC after every history a;b;c with a,b,c from {save, restore, move+SGR, draw at the edge, SO+designate, "
